@@ -513,7 +513,7 @@ MAP_METHODS = {"get", "pop", "setdefault", "keys", "values", "items", "update", 
                "move_to_end", "popitem"}
 SET_METHODS = {"add", "discard", "remove", "clear", "copy", "update", "isdisjoint"}
 STR_METHODS = {"lower", "upper", "strip", "split", "join", "startswith", "endswith", "format", "replace",
-               "encode", "lstrip", "rstrip", "isdigit", "splitlines", "find", "count"}
+               "encode", "lstrip", "rstrip", "isdigit", "isascii", "splitlines", "find", "count"}
 
 
 def get_attribute(I, o, name, default=_NOCONST):
@@ -2278,6 +2278,20 @@ def str_method(I, s, name, args, kw):
         I.path.assume(z3.And(r >= 0, r <= z3.Length(s.e)))
         I.ver.note_assumption("str.count is uninterpreted (0 <= count <= len)")
         return VInt(r)
+    if name == "isascii":
+        if isinstance(const_of(s), str):
+            return VBool(const_of(s).isascii())
+        fa = z3.Function("str_isascii", z3.StringSort(), z3.BoolSort())
+        fd = isdigit_term(I, s.e).decl()
+        if not getattr(I.path, "_isascii_axiom", False):
+            I.path._isascii_axiom = True
+            x = z3.String("ias_x")
+            ipf = int_parse_terms(I, z3.StringVal("0"))[0].decl()
+            # trusted: an ASCII string that isdigit() accepts is in [0-9]+, which int() parses
+            I.path.assume(z3.ForAll([x], z3.Implies(z3.And(fa(x), fd(x)), z3.And(ipf(x), z3.InRe(x, z3.Plus(z3.Range("0", "9"))))),
+                                    patterns=[z3.MultiPattern(fa(x), fd(x))]))
+            I.ver.note_assumption("str.isascii(): uninterpreted except: isascii(s) and isdigit(s) => s in [0-9]+ (so int(s) parses)")
+        return VBool(fa(s.e))
     if name == "isdigit":
         if isinstance(const_of(s), str):
             return VBool(const_of(s).isdigit())     # concrete string: host python decides
